@@ -16,8 +16,7 @@ EXPLANATION = (
     "decode_parity. R02a/R02e: beyond-tolerance arms return errors; -1 sentinels are tested before use. NOT decided: "
     "correctness of the peel decoders as algorithms, xor_bufs_and_store arithmetic, 'for every payload length'.")
 
-def run(ctx):
-    P = ctx.program()
+def rule_whitelist(ctx, P):
     mod = P.mod('src/builtin/xor_codes/xor_hd_code.c')
     acc, box = xorrules.accepted_shapes(P)
     ctx.extra['whitelist_box'] = box
@@ -60,6 +59,13 @@ def run(ctx):
         r.info(f'table {g} is not reachable through the whitelist', msg='a registered table no accepted shape uses')
     ctx.extra['unreachable_tables'] = unreachable
     r.require_min(38, 'accepted shapes')
+    return shapes
+
+
+def run(ctx):
+    P = ctx.program()
+    mod = P.mod('src/builtin/xor_codes/xor_hd_code.c')
+    shapes = rule_whitelist(ctx, P)
 
     # ---------------- R05a / R05b / R05d
     ra = ctx.rule('R05a', 'parity-side and data-side bitmaps describe the same equations (transposes, no stray bits)',
